@@ -140,6 +140,7 @@ func hx(b []byte) string {
 // ---------------------------------------------------------------- environment
 
 type Env struct {
+	extraCaps []wire.Cap // further capabilities in every OPEN the scripted remote sends
 	tr      *Trace
 	idx     int
 	srv     *bgp.Server
@@ -702,6 +703,7 @@ type Plugin struct {
 	CloseDelay   time.Duration     // time spent inside OnClose
 	MutateCaps   bool              // GetCapabilities returns the same slice every time, updated in place
 	HandlerVeto  int               // 1-based index of the UPDATE whose handler returns VetoNotif (0 = never)
+	HandlerAppend int              // the handler appends that many octets to the slice it was given (it owns it)
 	HandlerDelay time.Duration     // time spent inside every handler call
 	VetoEcho     int               // 1-based index of the UPDATE answered with a NOTIFICATION whose data is a slice of it
 	EstDelay     time.Duration     // time spent inside OnEstablished before its writes
@@ -825,6 +827,11 @@ func (pl *Plugin) OnEstablished(c bgp.PeerConfig, w bgp.UpdateMessageWriter) bgp
 		pl.mu.Unlock()
 		pl.tr().log(pl.peer.key, "cb.enter", "handler", g, hx(u))
 		entry := append([]byte(nil), u...)
+		if pl.HandlerAppend > 0 {
+			// the handler owns the slice: appending to it must not reach anything corebgp still uses
+			x := append(u, bytes.Repeat([]byte{0xde, 0xad, 0xbe, 0xef}, (pl.HandlerAppend+3)/4)...)
+			_ = x
+		}
 		for _, b := range pl.WriteInHandler {
 			pl.write(w, wid, append([]byte{byte(pl.writerSeq), byte(k)}, b...))
 		}
